@@ -7,7 +7,7 @@ RULE = ("seeded random NL models of the exact fragment (2..4 bounded variables o
         "abs, min, max, comparisons, and/or/not/iff/implies, forall/exists, if-then-else, count, numberof, alldiff, atleast-family, piecewise-linear "
         "terms, division by constants, defined variables) x acceptance configurations {all native, linear rows only, linear + indicators, linear + "
         "quadratic, random subset with levels 0/1/2} x conversion options {cvt:pre:all, cvt:pre:eqresult, cvt:pre:eqbinary, cvt:pre:unnest, "
-        "cvt:quadcon, cvt:quadobj, cvt:sos2, cvt:mip:eps}; for every test point of the original-variable grid the NL model is evaluated exactly "
+        "cvt:quadcon, cvt:quadobj, cvt:sos, cvt:sos2, cvt:mip:eps, cvt:bigM, cvt:uenc:ratio, cvt:uenc:negctx:max, cvt:socp, cvt:socp2qc, acc:* through the option path}; second-order-cone shaped rows (plain and rotated, recognised or not); for every test point of the original-variable grid the NL model is evaluated exactly "
         "(Fractions) and the recorded delivered model is decided by z3 with the original variables fixed (functional constraints as equalities): "
         "sat <=> NL-feasible; at feasible points the NL objective value is attainable and cannot be improved over the auxiliary variables; every "
         "sat witness is re-validated by the oracle's own evaluator; a refusal must carry a message and a 2xx/5xx code, a 2xx only if no test point "
@@ -42,7 +42,11 @@ def pick_acc(rng, which):
     return acc
 
 
-def pick_opts(rng):
+ACCOPTS = ['linrange', 'indle', 'indge', 'indeq', 'max', 'min', 'abs', 'and', 'or', 'not', 'pl', 'sos2', 'count', 'ifthen', 'impl', 'div',
+           'quadle', 'quadge', 'quadeq', 'quadrange', 'numberofconst', 'numberofvar', 'quadcone', 'rotatedquadcone', 'condlinlt', 'pow']
+
+
+def pick_opts(rng, has_cone=False):
     o = []
     if rng.random() < 0.15:
         o.append('cvt:pre:all=0')
@@ -58,6 +62,23 @@ def pick_opts(rng):
         o.append('cvt:quadobj=%d' % rng.choice([0, 1, 2]))
     if rng.random() < 0.1:
         o.append('cvt:sos2=%d' % rng.choice([0, 1]))
+    if rng.random() < 0.1:
+        o.append('cvt:mip:eps=%s' % rng.choice(['1e-3', '1e-5', '5e-4']))       # below the 1/512 guard on strict comparisons
+    if rng.random() < 0.06:
+        o.append('cvt:bigM=%s' % rng.choice(['1e4', '1e5']))                      # variables are bounded: a default big-M must not matter
+    if rng.random() < 0.1:
+        o.append('cvt:uenc:ratio=%s' % rng.choice(['0', '0.5', '1', '3']))
+    if rng.random() < 0.1:
+        o.append('cvt:uenc:negctx:max=%d' % rng.choice([0, 1, 2, 5]))
+    if rng.random() < 0.06:
+        o.append('cvt:sos=0')                                                     # the SOS suffixes are then not part of the model
+    if has_cone and rng.random() < 0.4 or rng.random() < 0.04:
+        o.append('cvt:socp=%d' % rng.choice([0, 1, 2]))
+    if has_cone and rng.random() < 0.3 or rng.random() < 0.03:
+        o.append('cvt:socp2qc=%d' % rng.choice([0, 1, 2]))
+    if rng.random() < 0.1:                                                        # acceptance changed through the real option path
+        for n in rng.sample(ACCOPTS, rng.randrange(1, 3)):
+            o.append('acc:%s=%d' % (n, rng.choice([0, 1, 2])))
     return o
 
 
@@ -70,7 +91,8 @@ def main(tier, seed):
 
     def one(k):
         rng = random.Random('%d/%d' % (seed, k))
-        m = gen_nl.G(rng, dict(nobjs=(0, 1), ncons=(1, 3), nlcons=(0, 2), nvars=(2, 4), depth=rng.choice([1, 2, 2, 3]), ndv=(0, 1), compl=True, sos=True)).model()
+        m = gen_nl.G(rng, dict(nobjs=(0, 1), ncons=(1, 3), nlcons=(0, 2), nvars=(2, 4), depth=rng.choice([1, 2, 2, 3]), ndv=(0, 1), compl=True, sos=True, cone=0.12)).model()
+        has_cone = m.cons and m.cons[-1].get('cone', False)
         if rng.random() < 0.8:
             gen_nl.make_feasible_at(m, rng)
         ops = sorted(gen_nl.model_ops(m))
@@ -86,13 +108,14 @@ def main(tier, seed):
                 continue
             if m.mingap < Fr(1, 512):
                 continue            # a strict comparison decided by less than the converter's epsilon: not judged
-            nlres.append((p, ev['feasible'], ev['objs'][0] if m.objs else None))
+            nlres.append((p, ev['feasible'], ev['objs'][0] if m.objs else None, all(t[0] in ('sos1', 'sos2') for t in ev['violated'])))
         out = []
         nl = m.to_nl()
         cfgs = [0, 1, rng.choice([2, 3, 4]), 4][:ctx_ncfg]
         for pos, which in enumerate(cfgs):
             acc = pick_acc(rng, which)
-            opts = pick_opts(rng)
+            opts = pick_opts(rng, has_cone)
+            nosos = 'cvt:sos=0' in opts
             flags = {'quadobj': rng.choice([0, 1])}
             info = dict(cfg=CFGNAMES[which], opts=opts, ops=ops, decided=0, feas=0, infeas=0, unknown=0, refused=False, approx=False, unsupported='', types=[])
             res = []
@@ -122,7 +145,7 @@ def main(tier, seed):
                     if not sol['message'].strip():
                         res.append(('refusal-without-message', 'code %s' % code))
                     if code is not None and 200 <= code < 300:
-                        fp = [p for p, f, _ in nlres if f]
+                        fp = [p for p, f, _, f0 in nlres if (f0 if nosos else f)]
                         if fp:
                             res.append(('model-declared-infeasible-but-has-feasible-point', 'solve_result %d (%s) but x=%s satisfies the NL model' % (code, sol['message'][:120], [str(t) for t in fp[0]])))
                     elif code is not None and code < 200:
@@ -136,7 +159,9 @@ def main(tier, seed):
                 out.append((k, res, info)); continue
             sense = m.objs[0]['sense'] if m.objs else 0
             have_obj = bool(m.objs) and bool(tr.objs)
-            for p, feas, ov in nlres:
+            for p, feas, ov, feas0 in nlres:
+                if nosos:
+                    feas = feas0
                 enc.at(p)
                 a = enc.check()
                 if a == 'unknown':
@@ -151,7 +176,19 @@ def main(tier, seed):
                         enc.done(); break
                 if (a == 'sat') != feas:
                     key = 'delivered-model-admits-an-infeasible-point' if a == 'sat' else 'delivered-model-excludes-a-feasible-point'
-                    viol = [] if feas else [t[0] for t in m.evaluate(p)['violated']][:3]
+                    # attribution: bounds of a complementarity variable narrowed by the converter (the condition is then read with other bounds)?
+                    # only if re-reading the delivered complementarity rows with the NL bounds makes the delivered model agree with the NL model
+                    nb = {j: (m.vars[j]['lb'], m.vars[j]['ub']) for j, _ in m.compl.values()
+                          if flat_eval.num(tr.lb[j]) != float(m.vars[j]['lb']) or flat_eval.num(tr.ub[j]) != float(m.vars[j]['ub'])}
+                    if nb and any(c['type'].startswith('Complementarity') for c in tr.cons):
+                        try:
+                            enc2 = flat_z3.Enc(tr, compl_bounds=nb)
+                            enc2.at(p); a2 = enc2.check(); enc2.done()
+                            if a2 != 'unknown' and (a2 == 'sat') == feas:
+                                key = 'complementarity-variable-bounds-narrowed:' + key
+                        except flat_z3.Unsupported:
+                            pass
+                    viol = [] if feas else [t[0] for t in m.evaluate(p)['violated'] if not (nosos and t[0] in ('sos1', 'sos2'))][:3]
                     res.append((key, 'x=%s: NL model %s%s, delivered model %s (config %s %s, delivered types %s)' % ([str(t) for t in p], 'feasible' if feas else 'infeasible', (' ' + str(viol)) if viol else '', a, CFGNAMES[which], opts, info['types'])))
                     enc.done(); break
                 if feas and have_obj and ov is not None:
@@ -193,6 +230,9 @@ def main(tier, seed):
             ctx.bump('runs_with_announced_approximation', 1 if info['approx'] else 0)
             ctx.bump('runs_with_type_not_encodable', 1 if info['unsupported'] else 0)
             ctx.bump('runs_' + info['cfg'], 1)
+            ctx.bump('runs_delivering_a_cone', 1 if any('Cone' in t for t in info['types']) else 0)
+            for o in info['opts']:
+                ctx.bump('runs_with_option_' + o.split('=')[0].split(':', 1)[0] + ':' + (o.split('=')[0].split(':', 1)[1] if not o.startswith('acc:') else '*'), 1)
             for t in info['types']:
                 ctx.addset('delivered_types_seen', t)
             if info['decided'] >= 40 and info['feas'] >= 5 and info['infeas'] >= 5:
